@@ -95,7 +95,11 @@ def build_plan(choice: Choice, tier: str, family: str):
     p["workers"] = 1 + d(6 if thorough else 4, "workers")
     wq = [1.0, None, 1, 2, 3, 0.5, 2.0][d(7, "wq_max")]
     p["wq_max"] = wq
-    p["rq_max"] = [None, 1, 2, 3][d(4, "rq_max")]
+    p["rq_max"] = [None, 1, 2, 3, 1.0][d(5, "rq_max")]     # a float means int(workers * x)
+    # which worker base class: BaseFunctorWorker + context.Process (as the test-suite's fork/spawn workers), or the
+    # library's FunctorWorker (default context); with the latter the pool may be built with context=None
+    p["worker_base"] = ["base", "base", "FunctorWorker"][d(3, "worker.base")]
+    p["default_context"] = p["worker_base"] == "FunctorWorker" and d(2, "default.context") == 1
     if p["factory"]:
         p["quota"] = [math.inf, 1, 2, 3][d(4, "quota")]
         if family == "multi" and p["quota"] != math.inf and d(6, "quota.fraction") == 5:
@@ -197,11 +201,22 @@ def scenario(k: Kernel, plan, obs):
     raises = tuple(plan["functor_raises"]) if plan["functor_raises"] else None
     begin_raises = plan["begin_raises"]
 
-    class WorkerBase(BaseFunctorWorker):
-        sim_role = "worker"
+    class MPShim:
+        """`multiprocessing` as the module under test sees it: the default context is the simulated one."""
 
-        def __init__(self, quota):
-            super().__init__(ctx, quota)
+        def get_context(self, method=None):
+            return ctx
+
+        def __getattr__(self, name):
+            import multiprocessing as _mp
+            return getattr(_mp, name)
+
+    opp.multiprocessing = MPShim()
+    from sim.prims import make_popen
+    opp.FunctorWorker._Popen = make_popen(k)
+
+    class Behaviour:
+        sim_role = "worker"
 
         def begin(self):
             rec("begin", self.wid)
@@ -238,13 +253,21 @@ def scenario(k: Kernel, plan, obs):
                 k.defer("end.defer")
             rec("end_done", self.wid)
 
-    Worker = type("SimWorker", (WorkerBase, ctx.Process), {})
+    if plan.get("worker_base") == "FunctorWorker":
+        class Worker(Behaviour, opp.FunctorWorker):
+            def __init__(self, quota):
+                opp.FunctorWorker.__init__(self, quota)
+    else:
+        class Worker(Behaviour, BaseFunctorWorker, ctx.Process):
+            def __init__(self, quota):
+                BaseFunctorWorker.__init__(self, ctx, quota)
 
     class Factory(FunctorWorkerFactory):
         def create(self):
             return Worker(plan["quota"])
 
-    kw = {"context": ctx, "work_queue_maxsize": plan["wq_max"], "results_queue_maxsize": plan["rq_max"]}
+    kw = {"context": None if plan.get("default_context") else ctx, "work_queue_maxsize": plan["wq_max"],
+          "results_queue_maxsize": plan["rq_max"]}
     if plan.get("join_timeout"):
         kw["join_timeout"] = plan["join_timeout"]
     if plan["factory"]:
